@@ -114,6 +114,10 @@ enum cc_stat cc_pqueue_new_conf(CC_PQueueConf const * const conf, CC_PQueue **ou
     if (!conf->capacity || ex >= CC_MAX_ELEMENTS / conf->capacity)
         return CC_ERR_INVALID_CAPACITY;
 
+    /* The size of the buffer in bytes must be representable as well. */
+    if (conf->capacity > SIZE_MAX / sizeof(void*))
+        return CC_ERR_INVALID_CAPACITY;
+
     CC_PQueue *pq = conf->mem_calloc(1, sizeof(CC_PQueue));
 
     if (!pq)
@@ -190,6 +194,10 @@ static enum cc_stat expand_capacity(CC_PQueue *pq)
      * at the point of overflow, this is check is valid. */
     if (new_capacity <= pq->capacity)
         new_capacity = CC_MAX_ELEMENTS;
+
+    /* A buffer whose size in bytes is not representable cannot be allocated. */
+    if (new_capacity > SIZE_MAX / sizeof(void*))
+        return CC_ERR_ALLOC;
 
     void **new_buff = pq->mem_alloc(new_capacity * sizeof(void*));
 
